@@ -305,7 +305,6 @@ def run(prog: Program, ctx: Ctx) -> None:  # noqa: PLR0912,PLR0915
     # _resolve_target - the store, the nested call, the paths between them.  Moving the nested step into a helper, behaviour unchanged, left the rule
     # without its subject.  What it stood for - a call that returns leaves the whole chain resolved, a call that raises leaves the alias
     # unresolved - is decided on behaviour for every alias graph and every resolution order by R7 ("sound", "all-or-nothing").)
-    rs = prog.function("_griffe.models.Alias._resolve_target")
 
     # ------------------------------------------------------------------ R4 error discipline
     ctx.rule("R4", "alias dereference raises only AliasResolutionError / CyclicAliasError (KeyError converted); Alias.kind / has_docstring(s) "
@@ -313,23 +312,38 @@ def run(prog: Program, ctx: Ctx) -> None:  # noqa: PLR0912,PLR0915
                    "by `not x.is_alias`, tabled with a reason, or inside a handler for both error types; dotted collection lookups too")
     alias = prog.cls("_griffe.models.Alias")
     core = []
-    for name in ("target", "final_target", "resolve_target", "_resolve_target"):
+    for name in ("target", "final_target", "resolve_target"):
         core += [f for f in alias.methods.get(name, []) if not f.is_setter]
+    # ... and the private methods of Alias that resolve_target reaches (today `_resolve_target`; inlined or renamed, the rule follows)
+    work = [f for f in alias.methods.get("resolve_target", [])]
+    while work:
+        cur_f = work.pop()
+        for e_ in cg.edges_from(cur_f):
+            tgt_f = e_.callee
+            if isinstance(tgt_f, FunctionInfo) and tgt_f.cls is alias and tgt_f.name.startswith("_") and not tgt_f.name.startswith("__") \
+                    and not tgt_f.is_property and tgt_f not in core and isinstance(e_.site, ast.Call) and dotted(e_.site.func) == f"self.{tgt_f.name}":
+                core.append(tgt_f)
+                work.append(tgt_f)
     for f in core:
         for r in walk_no_nested(f.node):
             if isinstance(r, ast.Raise) and r.exc is not None:
                 nm = (dotted(r.exc.func) if isinstance(r.exc, ast.Call) else dotted(r.exc)) or unparse(r.exc)
                 ctx.ob("R4", key(f, f"raise:{nm}"), nm.split(".")[-1] in AE, f"{f.name} raises {nm}", where(f, r))
-    # KeyError conversion of the collection lookup
-    for c in calls_in(rs.node):
-        if isinstance(c.func, ast.Attribute) and c.func.attr in ("get_member", "__getitem__"):
-            got = enclosing_catch(c)
-            conv = bool(got & {"KeyError", "LookupError", "Exception"})
-            ctx.ob("R4", key(rs, "KeyError-converted"), conv, "a missing target (KeyError from the collection) becomes AliasResolutionError", where(rs, c))
-    for s in ast.walk(rs.node):
-        if isinstance(s, ast.Subscript) and isinstance(s.ctx, ast.Load) and "modules_collection" in unparse(s.value):
-            ctx.ob("R4", key(rs, "KeyError-converted"), bool(enclosing_catch(s) & {"KeyError", "LookupError", "Exception"}),
-                   "a missing target (KeyError from the collection) becomes AliasResolutionError", where(rs, s))
+    # KeyError conversion of the collection lookup (wherever among these functions it sits)
+    n_conv = 0
+    for rs in [f for f in core if f.name not in ("target", "final_target")]:
+        for c in calls_in(rs.node):
+            if isinstance(c.func, ast.Attribute) and c.func.attr in ("get_member", "__getitem__") and "modules_collection" in unparse(c.func.value):
+                n_conv += 1
+                got = enclosing_catch(c)
+                conv = bool(got & {"KeyError", "LookupError", "Exception"})
+                ctx.ob("R4", "Alias.resolve_target|KeyError-converted", conv, "a missing target (KeyError from the collection) becomes AliasResolutionError", where(rs, c))
+        for s in ast.walk(rs.node):
+            if isinstance(s, ast.Subscript) and isinstance(s.ctx, ast.Load) and "modules_collection" in unparse(s.value):
+                n_conv += 1
+                ctx.ob("R4", "Alias.resolve_target|KeyError-converted", bool(enclosing_catch(s) & {"KeyError", "LookupError", "Exception"}),
+                       "a missing target (KeyError from the collection) becomes AliasResolutionError", where(rs, s))
+    ctx.expect_min("R4", n_conv, 1)
     # swallowing proxies
     for name in ("kind", "has_docstring", "has_docstrings"):
         for f in alias.methods.get(name, []):
@@ -347,8 +361,7 @@ def run(prog: Program, ctx: Ctx) -> None:  # noqa: PLR0912,PLR0915
     TABLED = {
         ("_griffe.loader.GriffeLoader.resolve_module_aliases", "v2.final_target"):
             "in the `else:` of the try whose body is member.resolve_target(): the whole chain was just resolved",
-        ("_griffe.loader.GriffeLoader._expand_wildcard", "v0.members"):
-            "only called from expand_wildcards inside the handler for both alias errors (checked below)",
+        # (the members read by the private wildcard collector is discharged through its call site: inside the handler for both alias errors)
         ("_griffe.merger._merge_function_stubs", "v0.annotation"): "loop variable over Parameters: a Parameter, never an alias",
         ("_griffe.mixins.SetMembersMixin.set_member", "self.members[v0[0]].set_member"):
             "dotted key through an alias raises to the API caller by design; loader call sites pass single names or are guarded",
@@ -373,10 +386,6 @@ def run(prog: Program, ctx: Ctx) -> None:  # noqa: PLR0912,PLR0915
     for f in scope:
         for c in calls_in(f.node):
             tq = {x.qualname for x, _k in cg.callees_of_call(f, c) if isinstance(x, FunctionInfo)}
-            if "_griffe.loader.GriffeLoader._expand_wildcard" in tq:
-                got = enclosing_catch(c)
-                ctx.ob("R4", key(f, "_expand_wildcard-guarded"), AE <= got or bool(got & CATCH_ALL),
-                       "collecting wildcard members (may hit an unresolvable alias) happens inside the handler for both alias errors", where(f, c))
             if "_griffe.loader.GriffeLoader.resolve_module_aliases" in tq and c.args:
                 a0 = unparse(c.args[0])
                 facts = ef._alias_facts(f, c)
@@ -392,10 +401,30 @@ def run(prog: Program, ctx: Ctx) -> None:  # noqa: PLR0912,PLR0915
                 n_lookups += 1
                 arg = unparse(c.args[0])
                 got = enclosing_catch(c)
-                full = ("KeyError" in got or got & {"LookupError", "Exception"}) and (AE <= got or got & CATCH_ALL)
+                def guarded_lookup(got_: set) -> bool:
+                    return bool(("KeyError" in got_ or got_ & {"LookupError", "Exception"}) and (AE <= got_ or got_ & CATCH_ALL))
+
+                full = guarded_lookup(got)
+                if not full:
+                    # a lookup in a private helper every call site of which sits inside such a handler (the helper is not a generator: its work
+                    # happens inside the handler)
+                    from sa.util import private_call_sites
+
+                    def site_ok(g_: FunctionInfo, c2: ast.Call) -> bool:
+                        got2 = enclosing_catch(c2)
+                        if guarded_lookup(got2):
+                            return True
+                        if not (AE <= got2 or got2 & CATCH_ALL):
+                            return False
+                        # alias errors are handled at the call; a missing key cannot happen when the caller has just looked the module up itself
+                        # under a KeyError handler (an earlier collection lookup in the same function, guarded for KeyError)
+                        return any(isinstance(c3.func, ast.Attribute) and c3.func.attr == "get_member" and "modules_collection" in unparse(c3.func.value)
+                                   and c3.lineno < c2.lineno and enclosing_catch(c3) & {"KeyError", "LookupError", "Exception"} for c3 in calls_in(g_.node))
+
+                    callers = private_call_sites(prog, f)
+                    full = bool(callers) and not f.is_generator and all(site_ok(g_, c2) for g_, c2 in callers)
                 tabled = {
                     ("_griffe.loader.GriffeLoader._post_load", "obj_path"): "the user's own objspec: errors are reported to the caller of load()",
-                    ("_griffe.loader.GriffeLoader._expand_wildcard", "wildcard_obj.wildcard"): "same path was looked up successfully by the caller; call is inside the guarded block",
                 }.get((f.qualname, arg))
                 ctx.ob("R4", key(f, f"lookup:{arg}"), bool(full) or tabled is not None,
                        (f"tabled: {tabled}" if tabled and not full else "dotted lookup guarded for KeyError and both alias errors") if (full or tabled) else
